@@ -3,7 +3,7 @@
 # Confirms in the scratch worktree /tmp/wt: suite passes with the patch, demo fails with it and passes without it.
 # Then applies the patch to /repo, runs the property's check (and all others), and undoes it.
 export GOFLAGS=-mod=mod GOPROXY=off GOSUMDB=off GOTOOLCHAIN=local; unset GOWORK
-P=$1; I=$2; PKG=$3; SD=/tmp/seed-$P/seeded$I
+P=$1; I=$2; PKG=$3; SD=${SEEDROOT:-/tmp/seed-$P}/seeded$I
 cd /tmp/wt || exit 2
 git checkout -q -- . ; git clean -qfd; git checkout -q --detach main
 git apply $SD/patch.diff || { echo "PATCH DOES NOT APPLY"; exit 2; }
